@@ -25,7 +25,8 @@ func (reg *ResourceRegistry) fetchFile(ctx context.Context, client *http.Client,
 	if tries > 0 {
 		select {
 		case <-ctx.Done():
-			return nil // module is shutting down
+			// module is shutting down: nothing was downloaded
+			return fmt.Errorf("download cancelled: %w", ctx.Err())
 		case <-time.After(time.Duration(tries*tries) * time.Second):
 		}
 	}
@@ -154,7 +155,8 @@ func (reg *ResourceRegistry) fetchMissingSig(ctx context.Context, client *http.C
 	if tries > 0 {
 		select {
 		case <-ctx.Done():
-			return nil // module is shutting down
+			// module is shutting down: nothing was downloaded
+			return fmt.Errorf("download cancelled: %w", ctx.Err())
 		case <-time.After(time.Duration(tries*tries) * time.Second):
 		}
 	}
@@ -282,7 +284,8 @@ func (reg *ResourceRegistry) fetchData(ctx context.Context, client *http.Client,
 	if tries > 0 {
 		select {
 		case <-ctx.Done():
-			return nil, "", nil // module is shutting down
+			// module is shutting down: nothing was downloaded
+			return nil, "", fmt.Errorf("download cancelled: %w", ctx.Err())
 		case <-time.After(time.Duration(tries*tries) * time.Second):
 		}
 	}
